@@ -9,7 +9,7 @@ def run(p):
     rules = sorted(set(re.findall(r"violation (C\d\d\.[\w-]+)", r.stdout)))
     inc = sorted(set(re.findall(r"INCONCLUSIVE (C\d\d\.[\w-]+)", r.stdout)))
     return p, rules, inc
-ps = sorted(p for p in glob.glob("/tmp/seed[0-9]_*/SEED_*/patch.diff") if only in p)
+ps = sorted(p for p in glob.glob("/tmp/seed[0-9]*_*/SEED_*/patch.diff") if only in p)
 with ThreadPoolExecutor(max_workers=6) as ex:
     for p, rules, inc in ex.map(run, ps):
         prop = p.split("/")[2].split("_",1)[1]
